@@ -2,6 +2,6 @@
 # run every claimed check quietly; print id, exit code, seconds, number of output lines
 cd /verif
 for id in $(python3 -c "import json;print(' '.join(c['property_id'] for c in json.load(open('MANIFEST.json'))['checks']))"); do
-  s=$(date +%s); ./check $id > /tmp/runall_$id.txt 2>&1; rc=$?; e=$(date +%s)
-  echo "$id rc=$rc $((e-s))s lines=$(wc -l < /tmp/runall_$id.txt)"
+  s=$(date +%s); ./check $id > /root/scratch/runall_$id.txt 2>&1; rc=$?; e=$(date +%s)
+  echo "$id rc=$rc $((e-s))s lines=$(wc -l < /root/scratch/runall_$id.txt)"
 done
